@@ -22,8 +22,9 @@ RULES = {
     'R6': 'peek/read: timedwait_fn (when installed) before the marker load; token reposted on the marker-not-published edge',
     'R7': 'qb_atomic_int_set_ex/get_ex are __atomic_store_n/__atomic_load_n with qb_model_map(model); qb_model_map maps every member to the same-named __ATOMIC_*',
     'R8': 'the write index never catches up with the read index while chunks are unread (equal indices are read as "empty"): the free-space computation keeps one spare word in both unequal-index cases and the allocation margin covers the chunk header plus the alignment word, the same margin at open and at alloc (= C07.R1, C07.R6)',
+    'R9': 'an unread chunk is not damaged by the commit of another (or by its own): the two words commit overwrites behind a chunk are the free words the margin keeps, and where the second one is the committed chunk\'s own length word (a chunk that fills the ring) it is left alone - the index stored at is the index compared (= C07.R7)',
 }
-FLOORS = {'R1': 5, 'R2': 9, 'R3': 4, 'R4': 5, 'R5': 5, 'R6': 5, 'R7': 8, 'R8': 8}
+FLOORS = {'R1': 5, 'R2': 9, 'R3': 4, 'R4': 5, 'R5': 5, 'R6': 5, 'R7': 8, 'R8': 8, 'R9': 4}
 
 MAGIC = 0xA1A1A1A1
 
@@ -68,6 +69,14 @@ def run(ctx):
     r6(ctx, magic)
     r7(ctx)
     r8(ctx)
+    # R9 = C07.R7: what commit writes behind a chunk never lands on a published, unread length word - not on the next chunk's
+    # (margin) and not on its own (a chunk that fills the ring)
+    from rules import c07
+    sub = type(ctx)(prog, ctx.prop, ctx.tier, ctx.depth)
+    c07.r7(sub)
+    for r in sub.results:
+        r['rule'] = 'R9'
+        ctx.results.append(r)
 
 
 # -- R1 ---------------------------------------------------------------------
